@@ -312,4 +312,99 @@ theorem run_k_le_64 (ko : Bool) : ∀ (ops : List Op) (s : St), s.k ≤ 64 → (
     | reset => simp [step, St.reset]
     | add v ws ord => exact add_k_le_64 ko s v ws ord h
 
+/-! ## unconditional bounds on `Len` (audit item 6)
+
+`Add` either drops (never longer), or inserts (one longer) and then — if the capacity test fires —
+runs ONE halving pass and raises `k`; otherwise the buffer is below the capacity.  So the excess of
+`Len` over the size is at most the number of halving passes since construction/`Reset` (= `k`), more
+precisely at most the number of those passes that kept every element. -/
+
+/-- one `Add`: the excess over the capacity grows by at most one, and only in a pass that kept everything -/
+theorem add_len_excess (ko : Bool) (s : St) (v : Nat) (ws ord : List Nat) (j : Nat)
+    (hl : s.buf.length ≤ s.cap + j) :
+    (add ko s v ws ord).1.buf.length ≤ s.cap + j + (if (add ko s v ws ord).2.keptAll then 1 else 0) := by
+  unfold add; dsimp only
+  split
+  · have := List.length_erase_le (a := v) (l := s.buf)
+    simp only [Bool.false_eq_true, if_false]; omega
+  · split
+    · have h1 := halve_length_le ko (if ord.isPerm (ins v s.buf) then ord else ins v s.buf) 0 0
+        (ws.drop (if pOf s.k < maxU64 then 1 else 0))
+      have h2 := (order_perm ord (ins v s.buf)).length_eq
+      have h3 := ins_length_le v s.buf
+      by_cases hk : (halve ko (if ord.isPerm (ins v s.buf) then ord else ins v s.buf) 0 0
+          (ws.drop (if pOf s.k < maxU64 then 1 else 0))).1.length = (ins v s.buf).length
+      · simp only [hk, beq_self_eq_true, if_true]; omega
+      · have : ((halve ko (if ord.isPerm (ins v s.buf) then ord else ins v s.buf) 0 0
+            (ws.drop (if pOf s.k < maxU64 then 1 else 0))).1.length == (ins v s.buf).length) = false := by
+          simpa using hk
+        simp only [this, Bool.false_eq_true, if_false]
+        show (halve ko _ 0 0 _).1.length ≤ _
+        omega
+    · rename_i h
+      simp only [Bool.false_eq_true, if_false]
+      show (ins v s.buf).length ≤ _
+      omega
+
+/-- one `Add`: `Len ≤ cap + k` is preserved -/
+theorem add_len_le_k (ko : Bool) (s : St) (v : Nat) (ws ord : List Nat) (hl : s.buf.length ≤ s.cap + s.k) :
+    (add ko s v ws ord).1.buf.length ≤ s.cap + (add ko s v ws ord).1.k := by
+  have h := add_len_excess ko s v ws ord s.k hl
+  have hk := add_k_eq ko s v ws ord
+  have hka : (add ko s v ws ord).2.keptAll = true → (add ko s v ws ord).2.halved = true := by
+    unfold add; dsimp only
+    split
+    · simp
+    · split <;> simp
+  by_cases hh : (add ko s v ws ord).2.halved = true
+  · rw [hk, if_pos hh]; split at h <;> omega
+  · have : (add ko s v ws ord).2.keptAll = false := by
+      cases hc : (add ko s v ws ord).2.keptAll
+      · rfl
+      · exact absurd (hka hc) hh
+    rw [this] at h
+    rw [hk, if_neg hh]; simpa using h
+
+/-- number of halving passes of a history that kept every element -/
+def keptAllCount (l : List (St × Out)) : Nat := (l.filter (fun o => o.2.keptAll)).length
+
+theorem run_len_excess (ko : Bool) : ∀ (ops : List Op) (s : St) (j : Nat), s.buf.length ≤ s.cap + j →
+    (run ko s ops).buf.length ≤ s.cap + j + keptAllCount (outs ko s ops) := by
+  intro ops
+  induction ops with
+  | nil => intro s j h; simpa [run, outs, keptAllCount] using h
+  | cons op ops ih =>
+    intro s j h
+    have hc := step_cap ko s op
+    have hstep : (step ko s op).1.buf.length ≤ s.cap + j + (if (step ko s op).2.keptAll then 1 else 0) := by
+      cases op with
+      | reset => simp [step, St.reset]
+      | add v ws ord => exact add_len_excess ko s v ws ord j h
+    have := ih (step ko s op).1 (j + (if (step ko s op).2.keptAll then 1 else 0)) (by rw [hc]; omega)
+    rw [hc] at this
+    simp only [run, outs, keptAllCount, List.filter_cons] at this ⊢
+    split
+    · rename_i hk; rw [hk] at this; simp only [if_true, List.length_cons] at this ⊢
+      omega
+    · rename_i hk
+      have hk' : (step ko s op).2.keptAll = false := by simpa using hk
+      rw [hk'] at this; simp only [Bool.false_eq_true, if_false] at this
+      omega
+
+theorem run_len_le_k (ko : Bool) : ∀ (ops : List Op) (s : St), s.buf.length ≤ s.cap + s.k →
+    (run ko s ops).buf.length ≤ s.cap + (run ko s ops).k := by
+  intro ops
+  induction ops with
+  | nil => intro s h; exact h
+  | cons op ops ih =>
+    intro s h
+    have hc := step_cap ko s op
+    have := ih (step ko s op).1 (by
+      rw [hc]
+      cases op with
+      | reset => simp [step, St.reset]
+      | add v ws ord => exact add_len_le_k ko s v ws ord h)
+    rw [hc] at this
+    exact this
+
 end MdsVerif.Proofs.Distinct
